@@ -472,7 +472,14 @@ def _len_local_ok (c, it, P):
     for a, b in ((e.left, e.right), (e.right, e.left)):
       kk = q.try_int(a)
       if kk is not None and isinstance(b, ast.Call) and call_name(b) == 'len': k = kk
-  return k is not None and k == fixed
+  if k is not None and k == fixed: return True
+  # the length of a sub-part: len(<local>) where that local's bytes are themselves part of what is emitted (actions_len = len(actions))
+  if isinstance(e, ast.Call) and call_name(e) == 'len' and len(e.args) == 1 and isinstance(e.args[0], ast.Name):
+    nm = e.args[0].id
+    for x in P:
+      if x is it: continue
+      if x.name == nm or (x.expr is not None and norm(x.expr) == nm) or (isinstance(x.src, ast.AST) and norm(x.src) == nm): return True
+  return False
 
 def _registries (ctx, repo, lof, spec):
   msgs = ofreg.messages(repo); acts = ofreg.actions(repo); sts = ofreg.stats(repo); qps = ofreg.queue_props(repo)
